@@ -347,9 +347,11 @@ def _jobs(fn: str, tier: str, cover: list) -> list[dict]:
                                 params=dict(code=code, n=n, script=script, stacks=stacks, mode=mode,
                                             boards=boards, antes=antes),
                                 budget_s=B, must_cover=cover))
-    # symbolic stack + 4 symbolic automation bits (traced)
+    # symbolic stack + 3 symbolic automation bits (traced); the equivalence harness runs every hand twice, so in the
+    # quick tier it keeps 2 bits symbolic (measured: 3 bits need ~1 000 paths / 900+ CPU-s there)
     fixed = {a.name: True for a in Automation}
-    for nm in ('CARD_BURNING', 'HOLE_CARDS_SHOWING_OR_MUCKING', 'RUNOUT_COUNT_SELECTION'):
+    free = ('CARD_BURNING', 'HOLE_CARDS_SHOWING_OR_MUCKING', 'RUNOUT_COUNT_SELECTION')
+    for nm in (free[:2] if (fn == 'h_equiv' and tier == 'quick') else free):
         fixed.pop(nm)
     sym_cases = [('NT', 2, (50, 50), 'Rc')]
     if tier == 'thorough':
